@@ -19,7 +19,7 @@ use syn::*;
 
 mod rules;
 
-#[derive(Deserialize, Debug, Default)]
+#[derive(Deserialize, Debug, Default, Clone)]
 pub struct Unit {
     pub name: String,
     /// units whose items come first, each extracted under its own configuration
@@ -93,13 +93,16 @@ pub struct ClosureSig {
     pub bind: bool,
 }
 
-#[derive(Deserialize, Debug)]
+#[derive(Deserialize, Debug, Clone)]
 pub struct Source {
     pub file: String,
     pub select: Vec<String>,
     /// identifiers renamed in the items of this source (module-private names that would collide in the flat unit)
     #[serde(default)]
     pub rename: BTreeMap<String, String>,
+    /// generic parameters of these items are NOT substituted (the unit's generic_subst is for their users)
+    #[serde(default)]
+    pub no_subst: bool,
 }
 
 pub struct Log {
@@ -129,7 +132,13 @@ fn main() {
                     if !src.rename.is_empty() {
                         rules::rename_idents(&mut item, &src.rename, &mut log);
                     }
-                    rules::rewrite_item(&mut item, unit, &mut log, &mut lifted);
+                    if src.no_subst {
+                        let mut u2: Unit = unit.clone();
+                        u2.generic_subst.clear();
+                        rules::rewrite_item(&mut item, &u2, &mut log, &mut lifted);
+                    } else {
+                        rules::rewrite_item(&mut item, unit, &mut log, &mut lifted);
+                    }
                     out.push_str(&format!("// @item {} :: {}\n", src.file, sel));
                     out.push_str(&item.to_token_stream().to_string());
                     out.push_str("\n\n");
@@ -252,6 +261,20 @@ fn select(file: &File, sel: &str) -> std::result::Result<Vec<Item>, String> {
                 }
             }
             Err("item not found".into())
+        }
+        "traitimpl" => {
+            // traitimpl T for X : the trait impl is kept as a trait impl (needed when X is a slice type)
+            let (tname, ty_name) = (words[1], head.splitn(4, ' ').nth(3).ok_or("traitimpl T for X")?.trim());
+            for it in &file.items {
+                if let Item::Impl(im) = it {
+                    let tr = im.trait_.as_ref().map(|t| t.1.segments.last().unwrap().ident.to_string());
+                    let tn = im.self_ty.to_token_stream().to_string().replace(' ', "");
+                    if tr.as_deref() == Some(tname) && tn == ty_name.replace(' ', "") {
+                        return Ok(vec![Item::Impl(im.clone())]);
+                    }
+                }
+            }
+            Err("trait impl not found".into())
         }
         "impl" | "mono" => {
             let (trait_name, ty_name) = if words.len() >= 4 && words[2] == "for" { (Some(words[1]), words[3]) } else { (None, words[1]) };
